@@ -403,6 +403,20 @@ func c05pool(c *Ctx) {
 			}
 			return true, ""
 		}
+		createPanicked := false
+		for _, e := range p.All(create) {
+			if e.PanicsHere {
+				createPanicked = true
+			}
+		}
+		if createPanicked {
+			// "after all holders have finished, including by panic, the full capacity is available again": the slot counted
+			// for a resource whose creation panicked is given back
+			if dec != ndestroy+1 {
+				return false, fmt.Sprintf("create() panicked after created++ and the count is not taken back (created-- ×%d, destroy ×%d): the slot is lost for good — with limit 1 every later Get blocks although nothing is outstanding", dec, ndestroy)
+			}
+			return true, ""
+		}
 		if ndestroy != dec {
 			return false, fmt.Sprintf("destroy ×%d but created-- ×%d (capacity leaks or grows)", ndestroy, dec)
 		}
